@@ -209,16 +209,16 @@ def tlv_data(draw, limit):
 
 
 @st.composite
-def pds_sets(draw, codec, carriers, max_items=12, big=False):
+def pds_sets(draw, codec, carriers, max_items=12, big=False, min_items=1):
     """dict PDSxxxx -> value sized (by the reference packer) to fit `carriers` carrier elements"""
     tags = draw(st.lists(st.one_of(st.sampled_from([0, 1, 23, 52, 122, 148, 158, 165, 9999]), uniform(0, 9999)),
-                         min_size=1, max_size=max_items, unique=True))
+                         min_size=min_items, max_size=max_items, unique=True))
     items = []
     for t in tags:
         if big:
             n = draw(st.one_of(st.sampled_from([0, 1, 7, 8, 100, 485, 490, 495, 985, 990, 991, 992]), uniform(0, 992)))
         else:
-            n = draw(st.one_of(st.sampled_from([0, 1, 3, 7, 25]), uniform(0, 60)))
+            n = draw(st.one_of(st.sampled_from([0, 1, 3, 7, 12, 25]), uniform(0, 60)))
         items.append((t, draw(tiled_text(codec, n))))
     while len(refcodec.pack_pds(items)) > carriers and items:
         items.pop()
@@ -298,13 +298,13 @@ def messages(draw, config, codec, exact=True, pds_mode='keys', typed_as_str=Fals
     if rich:
         # parser-heavy shapes on purpose: the ICC / DE43 elements and PDS sub-elements whenever the configuration has them
         for b in plain:
-            if config[str(b)].get('field_processor') in ('ICC', 'DE43') and b not in chosen and draw(uniform(0, 3)) > 0:
+            if config[str(b)].get('field_processor') in ('ICC', 'DE43') and b not in chosen and draw(uniform(0, 7)) > 0:
                 chosen.append(b)
     msg = {'MTI': draw(MTI)}
     for b in sorted(chosen):
         msg['DE%d' % b] = draw(value_for(config[str(b)], codec, exact=exact, typed_as_str=typed_as_str))
-    if carriers and pds_mode == 'keys' and (draw(st.booleans()) or (rich and draw(uniform(0, 3)) > 0)):
-        msg.update(draw(pds_sets(codec, len(carriers), big=pds_big)))
+    if carriers and pds_mode == 'keys' and (draw(st.booleans()) or (rich and draw(uniform(0, 7)) > 0)):
+        msg.update(draw(pds_sets(codec, len(carriers), big=pds_big, min_items=2 if rich else 1)))
     return msg
 
 
